@@ -106,15 +106,15 @@ INV = {
 PROPS = {
     # sample: behaviours replayed per engine (0 = all enumerated behaviours); a RocksDB open costs ~100 ms here
     "C22": dict(cfgs={"quick": ["cas-3", "keys-3"], "thorough": ["cas-3", "cas-4", "cas2k-3", "keys-3", "keys-4"]},
-                sample={"quick": {"file": 1200, "rocks": 800}, "thorough": {"file": 0, "rocks": 30000}}),
+                sample={"quick": {"file": 1200, "rocks": 800}, "thorough": {"file": 40000, "rocks": 8000}}),
     "C15": dict(cfgs={"quick": ["crash-2"], "thorough": ["crash-2", "crash-3", "crash2-3"]},
-                sample={"quick": {"file": 900, "rocks": 110}, "thorough": {"file": 45000, "rocks": 3000}}),
+                sample={"quick": {"file": 900, "rocks": 110}, "thorough": {"file": 20000, "rocks": 2000}}),
     "C16": dict(cfgs={"quick": ["snap-2"], "thorough": ["snap-2", "snap-3", "snap-4"]},
-                sample={"quick": {"file": 800, "rocks": 100}, "thorough": {"file": 30000, "rocks": 3000}}),
+                sample={"quick": {"file": 800, "rocks": 100}, "thorough": {"file": 15000, "rocks": 1500}}),
     "C23": dict(cfgs={"quick": ["ttl-w", "ttl-r", "ttl-s"], "thorough": ["ttl-w", "ttl-r", "ttl-s", "ttl-w2"]},
-                sample={"quick": {"file": 186, "rocks": 36}, "thorough": {"file": 0, "rocks": 900}}, jobs=32),
+                sample={"quick": {"file": 186, "rocks": 36}, "thorough": {"file": 1500, "rocks": 400}}, jobs=32),
     "C25": dict(cfgs={"quick": ["scanc-2"], "thorough": ["scanc-2", "scanc-3", "keys-4"]},
-                sample={"quick": {"file": 900, "rocks": 500}, "thorough": {"file": 0, "rocks": 12000}}),
+                sample={"quick": {"file": 900, "rocks": 500}, "thorough": {"file": 20000, "rocks": 6000}}),
 }
 
 _TEXT = ("TLC model-checks the focused configuration of KV.tla (engine write steps as actions, repaired design) for "
@@ -125,8 +125,9 @@ _TEXT = ("TLC model-checks the focused configuration of KV.tla (engine write ste
          "semantics of KVCore.tla and compares it with the model's prediction (conformance).")
 _NOTE = ("trusted: TLC, the harness' encoding of commands and observations, process-crash semantics of a directory "
          "copy (everything written survives; power loss is not modelled); bounds: the command alphabet, sequence "
-         "length and budgets reported in the evidence file; exhaustive within those bounds in the thorough tier, "
-         "seeded stratified sample of the enumerated behaviours in the quick tier")
+         "length and budgets reported in the evidence file; TLC explores the model exhaustively within those bounds; the "
+         "real engines are driven with all enumerated behaviours when they fit the tier's replay budget, otherwise with "
+         "a seeded sample stratified by step shape (the evidence file says which)")
 _WHAT = {
     "C22": "key-value command semantics on both engines for every chunking",
     "C15": "each committed entry is applied exactly once across crashes; the reported applied index matches the data",
@@ -335,10 +336,17 @@ def strip_pred(steps):
 
 
 def check(prop, tier):
+    wd = dv.workdir("kv-" + prop)
+    try:
+        return _check(prop, tier, wd)
+    finally:
+        shutil.rmtree(wd, ignore_errors=True)
+
+
+def _check(prop, tier, wd):
     t0 = time.time()
     spec = PROPS[prop]
     T = TIER[tier]
-    wd = dv.workdir("kv-" + prop)
     dv.build_harness("dv-kv")
     rnd = random.Random(dv.seed())
 
@@ -451,9 +459,7 @@ def check(prop, tier):
                        "commands reach the engines as decoded d_engine_core::Command values (wire decoding is not part of this check)",
                        "bounds: alphabets / lengths / budgets of the listed configurations"],
                       time.time() - t0, len(new))
-    rc = dv.finish(prop, known_hits, new, replay_paths)
-    shutil.rmtree(wd, ignore_errors=True)
-    return rc
+    return dv.finish(prop, known_hits, new, replay_paths)
 
 
 NONTRIVIAL_RULE = {
@@ -469,6 +475,13 @@ def replay(prop, path):
     with open(path) as f:
         payload = json.load(f)
     wd = dv.workdir("kv-replay-" + prop)
+    try:
+        return _replay(prop, path, payload, wd)
+    finally:
+        shutil.rmtree(wd, ignore_errors=True)
+
+
+def _replay(prop, path, payload, wd):
     dv.build_harness("dv-kv")
     tp = run_harness(wd, payload["hdr"], [payload["schedule"]], 1, ttl_s=payload.get("ttl_s"))
     res = judge(wd, tp, 1)
@@ -478,6 +491,4 @@ def replay(prop, path):
     for v in viol:
         if v["p"] == prop:
             print("reproduced:", json.dumps(v))
-    rc = dv.finish(prop, known_hits, new, [path] if new else [])
-    shutil.rmtree(wd, ignore_errors=True)
-    return rc
+    return dv.finish(prop, known_hits, new, [path] if new else [])
